@@ -358,7 +358,13 @@ var expCost = map[string]bool{"Int": true, "Rat": true,
 	"Text": true, "Append": true, "Format": true, "String": true, "IsInt": true, "MarshalText": true, "MarshalJSON": true,
 	"TextCopy": true, "JSONCopy": true}
 
+// precCost lists operations whose running time and memory are proportional to
+// the receiver's precision even for tiny operands.
+var precCost = map[string]bool{"Quo": true, "Sqrt": true, "SetRat": true, "SetFloat": true, "SetFloat64": true,
+	"Parse": true, "SetString": true, "Scan": true, "Sscanf": true, "UnmarshalText": true, "UnmarshalJSON": true, "TextCopy": true, "JSONCopy": true}
+
 const maxSpread = 6000
+const maxWorkPrec = 60000
 
 // costGuard keeps the simulation away from operations whose cost is
 // proportional to an exponent (difference): Add/Sub/FMA shift one mantissa by
@@ -387,6 +393,27 @@ func costGuard(w *World, op *Op) string {
 	lo := func(i int) int64 { // exponent of the least significant digit
 		x := w.V[op.A[i]]
 		return int64(x.MantExp(nil)) - int64(x.MinPrec())
+	}
+	// cost proportional to the working precision (a corrupted gob payload may
+	// legally carry any uint32 precision, e.g. 4294967295)
+	if precCost[name] && op.Z >= 0 && !(len(op.Name) > 2 && op.Name[:2] == "c.") {
+		p := w.V[op.Z].Prec()
+		if p == 0 {
+			for _, a := range op.A {
+				if q := w.V[a].Prec(); q > p {
+					p = q
+				}
+			}
+		}
+		if p > maxWorkPrec {
+			return "working precision exceeds the simulation's cost limit"
+		}
+	}
+	if (name == "Text" || name == "Append") && op.M == 'b' || name == "Format" && strings.Contains(op.S, "b") {
+		// the 'b' format prints Prec() digits
+		if len(op.A) > 0 && w.V[op.A[0]].Prec() > maxWorkPrec {
+			return "'b' format of a value with a precision above the simulation's cost limit"
+		}
 	}
 	switch name {
 	case "Add", "Sub":
